@@ -383,8 +383,8 @@ func trieDepth(keys [][]byte) int {
 }
 
 const findingRules = "a failing case (S violation, panic or unexpected error) of mode PID is a finding, rules tried in this order: " +
-	"(1) PID:embedded-leaf-evicted-under-dirty-internal-node iff 0 < value_cap < 16777216 and, at or before the first failure, either mkvs.VerifScan reported DirtyNodeWithEvictedLeaf > 0 or the tree-level reference key set contained a key that is a proper byte-prefix of another key (the empty key with any other key included); " +
-	"(2) PID:node-capacity-not-above-path-depth iff 0 < node_cap <= D+1, D = the maximum so far of the number of internal nodes on a root-to-leaf path of the compressed binary trie over the tree-level reference key set; " +
+	"(1) PID:node-capacity-not-above-path-depth iff 0 < node_cap <= D+1, D = the maximum so far of the number of internal nodes on a root-to-leaf path of the compressed binary trie over the tree-level reference key set; " +
+	"(2) PID:embedded-leaf-evicted-under-dirty-internal-node iff 0 < value_cap < 16777216 and, at or before the first failure, either mkvs.VerifScan reported DirtyNodeWithEvictedLeaf > 0 or the tree-level reference key set contained a key that is a proper byte-prefix of another key (the empty key with any other key included); " +
 	"(3) otherwise it is an ordinary violation. A pair/twin violation is attributed to the finding of a member that satisfies (1) or (2) with its flags over its whole run."
 
 const (
@@ -400,10 +400,10 @@ func classify(c Case, f1, prefixPair bool, depth int) (key, mechanism string) {
 		pid = "C03"
 	}
 	switch {
-	case c.ValueCap > 0 && c.ValueCap < 16777216 && (f1 || prefixPair):
-		return pid + ":" + findingF1, "value-cache eviction of the embedded leaf of a dirty internal node (LeafNode.Node == nil): "
 	case c.NodeCap > 0 && c.NodeCap <= uint64(depth)+1:
 		return pid + ":" + findingF2, fmt.Sprintf("node capacity %d <= path depth %d+1, a node on the active path is evicted: ", c.NodeCap, depth)
+	case c.ValueCap > 0 && c.ValueCap < 16777216 && (f1 || prefixPair):
+		return pid + ":" + findingF1, "value-cache eviction of the embedded leaf of a dirty internal node (LeafNode.Node == nil): "
 	}
 	return "", ""
 }
